@@ -16,10 +16,30 @@
       if (ret && high > low && CAS(&rb->low, low, low+1)) { rb->buffer[index] = 0; return ret; }
       return NULL;
 
+  (blocking wrappers, as compiled — the log shows `high` being read before `low` in both loop
+   bodies, seq_cst because `rb->high` / `rb->low` are plain uses of `_Atomic` objects):
+      push:  while (!trypush(rb, in)) { h = rb->high; l = rb->low; if (h - l >= size) cpu_relax(); }
+             (`h - l` is unsigned: a stale `h < l` also counts as "full")
+      pop:   while (!(ret = trypop(rb))) { h = rb->high; l = rb->low; if (h <= l) cpu_relax(); }
+             return ret;
+  (size):
+      high = load(rb->high); low = load(rb->low); d = (int64_t)(high - low); return d >= 0 ? d : 0;
+
+  A blocking call is the wrapper frame (`wrap t`, which holds the argument `in` across the
+  attempts) around ordinary trypush / trypop attempts: the attempts are the SAME steps as for
+  a direct trypush / trypop call (events `ldLow` … `casLow`, program counters `pushCalled` …
+  `popDone`); when an attempt has failed the wrapper reads `high`, `low` (events `wLdHigh`,
+  `wLdLow`), calls `cpu_relax()` exactly when it saw full / empty (event `relax`) and starts the
+  next attempt.  The wrapper's return events are `retBPush` / `retBPop`; the direct calls'
+  `retPush` / `retPop` are refused while a wrapper frame is present.
+
   `step` = `core` followed by `observe`: `core` is the C code (guards read only the shared cells and the
   thread's pc); the ghost fields `pushed`, `popped`, `written`, `cleared`, `arg`, `active`,
   `wit` are write-only bookkeeping for the theorems (no guard reads them), so they cannot
-  make the model reject a trace of the implementation.
+  make the model reject a trace of the implementation.  The same holds for the last component
+  `g` of `Pc.sizeGotHigh h g` and the last two components `g h2` of `Pc.sizeGotBoth h l g h2`
+  (the value of `low` at the instant `size` read `high`, the value of `high` at the instant it
+  read `low`): they are copied from the state, not from the event, and no guard reads them.
 -/
 import LibfiberVerif.Core.Sys
 import LibfiberVerif.Core.Event
@@ -41,7 +61,36 @@ inductive Pc
   | popReadSlot (h l x : Nat)
   | popClaimed (l x : Nat)
   | popDone (x : Nat)
+  /-- blocking push, an attempt has failed: the wrapper has read `high = h` -/
+  | bpushGotHigh (v h : Nat)
+  /-- blocking push: the wrapper saw `(uint64_t)(h - l) ≥ size` and is about to `cpu_relax()` -/
+  | bpushFull (v : Nat)
+  /-- blocking pop, an attempt has failed: the wrapper has read `high = h` -/
+  | bpopGotHigh (h : Nat)
+  /-- blocking pop: the wrapper saw `h ≤ l` and is about to `cpu_relax()` -/
+  | bpopEmpty
+  | sizeCalled
+  /-- `size` has read `high = h`; ghost `g` = the value of `low` at that instant -/
+  | sizeGotHigh (h g : Nat)
+  /-- `size` has read `high = h` and then `low = l`; ghost `g` as before, ghost `h2` = the
+      value of `high` at the instant `low` was read -/
+  | sizeGotBoth (h l g h2 : Nat)
   deriving Repr, DecidableEq, Inhabited
+
+/-- the blocking wrapper frame (if any) under a thread's current trypush / trypop attempt -/
+inductive Wrap
+  | no
+  | push (v : Nat)
+  | pop
+  deriving Repr, DecidableEq, Inhabited
+
+def Wrap.isPush : Wrap → Bool
+  | .push _ => true
+  | _ => false
+
+def Wrap.isPop : Wrap → Bool
+  | .pop => true
+  | _ => false
 
 inductive Ev
   | callPush (t v : Nat)
@@ -54,6 +103,21 @@ inductive Ev
   | wrBuf (t i x : Nat)
   | casHigh (t found exp des : Nat) (ok : Bool)
   | casLow (t found exp des : Nat) (ok : Bool)
+  /-- `lockfree_ring_buffer_push(rb, v)` is called / returns (the harness prints its result as 1) -/
+  | callBPush (t v : Nat)
+  | retBPush (t r : Nat)
+  /-- `lockfree_ring_buffer_pop(rb)` is called / returns `x` -/
+  | callBPop (t : Nat)
+  | retBPop (t x : Nat)
+  /-- `lockfree_ring_buffer_size(rb)` is called / returns `n` -/
+  | callSize (t : Nat)
+  | retSize (t n : Nat)
+  /-- a load of `high` / `low` performed by `push`, `pop` or `size` themselves (not by the
+      trypush / trypop they call) -/
+  | wLdHigh (t x : Nat)
+  | wLdLow (t x : Nat)
+  /-- the `cpu_relax()` of a blocking wrapper -/
+  | relax (t : Nat)
   deriving Repr, DecidableEq, Inhabited
 
 structure St where
@@ -62,6 +126,10 @@ structure St where
   low : Nat
   buf : Nat → Nat
   pc : Nat → Pc
+  /-- the blocking wrapper (and its argument) that thread `t`'s current attempt runs under;
+      `.no` for a direct trypush / trypop / size call.  Program state (the wrapper's stack
+      frame), read by guards. -/
+  wrap : Nat → Wrap
   /-- ghost: values in the order their `high` CAS succeeded; `pushed[i]` belongs to claim index `i` -/
   pushed : List Nat
   /-- ghost: values in the order their `low` CAS succeeded -/
@@ -84,17 +152,32 @@ def idx (size n : Nat) : Nat := n &&& (size - 1)
 
 def init (size : Nat) : St :=
   { size := size, high := 0, low := 0, buf := fun _ => 0, pc := fun _ => .idle,
-    pushed := [], popped := [], written := fun _ => false, cleared := fun _ => false,
+    wrap := fun _ => .no, pushed := [], popped := [], written := fun _ => false, cleared := fun _ => false,
     arg := fun _ => 0, active := [], wit := fun _ => false }
 
 def Pc.pushing : Pc → Bool
   | .pushCalled .. | .pushGotLow .. | .pushGotHigh .. | .pushReadSlot .. | .pushClaimed ..
-  | .pushDone .. => true
+  | .pushDone .. | .bpushGotHigh .. | .bpushFull .. => true
   | _ => false
 
 def Pc.popping : Pc → Bool
   | .popCalled | .popGotHigh .. | .popGotLow .. | .popReadSlot .. | .popClaimed ..
-  | .popDone .. => true
+  | .popDone .. | .bpopGotHigh .. | .bpopEmpty => true
+  | _ => false
+
+/-- the attempt of thread `t` has failed (trypush would return 0): pc after a lost CAS, or
+    after the short-circuit `&&` gave up before the CAS -/
+def pushFailed (s : St) (t : Nat) : Bool :=
+  match s.pc t with
+  | .pushDone r => r == 0
+  | .pushReadSlot _ l h x => x != 0 || !decide (h - l < s.size)
+  | _ => false
+
+/-- the attempt of thread `t` has failed (trypop would return NULL) -/
+def popFailed (s : St) (t : Nat) : Bool :=
+  match s.pc t with
+  | .popDone x => x == 0
+  | .popReadSlot h l y => y == 0 || !decide (l < h)
   | _ => false
 
 /-- ghost predicate sampled at every instant (= after every event): in state `s` some thread
@@ -160,11 +243,12 @@ def core (s : St) : Ev → Option St
   | .retPush t r =>
     match s.pc t with
     | .pushDone r' =>
-      if r = r' then some { s with pc := upd s.pc t .idle, active := s.active.filter (fun u => u != t) }
+      if r = r' ∧ s.wrap t = .no then
+        some { s with pc := upd s.pc t .idle, active := s.active.filter (fun u => u != t) }
       else none
     | .pushReadSlot _ l h x =>
       -- the short-circuit `&&` gave up before the CAS
-      if (x ≠ 0 ∨ ¬ (h - l < s.size)) ∧ r = 0 then
+      if (x ≠ 0 ∨ ¬ (h - l < s.size)) ∧ r = 0 ∧ s.wrap t = .no then
         some { s with pc := upd s.pc t .idle, active := s.active.filter (fun u => u != t) }
       else none
     | _ => none
@@ -184,10 +268,87 @@ def core (s : St) : Ev → Option St
   | .retPop t x =>
     match s.pc t with
     | .popDone x' =>
-      if x = x' then some { s with pc := upd s.pc t .idle, active := s.active.filter (fun u => u != t) }
+      if x = x' ∧ s.wrap t = .no then
+        some { s with pc := upd s.pc t .idle, active := s.active.filter (fun u => u != t) }
       else none
     | .popReadSlot h l y =>
-      if (y = 0 ∨ ¬ (l < h)) ∧ x = 0 then
+      if (y = 0 ∨ ¬ (l < h)) ∧ x = 0 ∧ s.wrap t = .no then
+        some { s with pc := upd s.pc t .idle, active := s.active.filter (fun u => u != t) }
+      else none
+    | _ => none
+  | .callBPush t v =>
+    if s.pc t = .idle ∧ v ≠ 0 then
+      some { s with pc := upd s.pc t (.pushCalled v), wrap := upd s.wrap t (.push v),
+                    active := t :: s.active, wit := upd s.wit t false }
+    else none
+  | .callBPop t =>
+    if s.pc t = .idle then
+      some { s with pc := upd s.pc t .popCalled, wrap := upd s.wrap t .pop,
+                    active := t :: s.active, wit := upd s.wit t false }
+    else none
+  | .callSize t =>
+    if s.pc t = .idle then
+      some { s with pc := upd s.pc t .sizeCalled, active := t :: s.active, wit := upd s.wit t false }
+    else none
+  | .wLdHigh t x =>
+    match s.wrap t with
+    | .push v =>
+      -- `while (!trypush(..))`: the attempt returned 0, the loop body reads `rb->high` first
+      if pushFailed s t = true ∧ x = s.high then some { s with pc := upd s.pc t (.bpushGotHigh v x) }
+      else none
+    | .pop =>
+      if popFailed s t = true ∧ x = s.high then some { s with pc := upd s.pc t (.bpopGotHigh x) }
+      else none
+    | .no =>
+      if s.pc t = .sizeCalled ∧ x = s.high then some { s with pc := upd s.pc t (.sizeGotHigh x s.low) }
+      else none
+  | .wLdLow t x =>
+    match s.pc t with
+    | .bpushGotHigh v h =>
+      if x = s.low then
+        -- `if (high - low >= size) cpu_relax();` then the next attempt.  The subtraction is
+        -- UNSIGNED 64-bit: when the `high` read first is already below the `low` read after it
+        -- (pushes and pops took effect in between) the difference wraps to a huge number, so the
+        -- wrapper also relaxes then (seen on the real code; harmless, it is only a pause)
+        if s.size ≤ h - x ∨ h < x then some { s with pc := upd s.pc t (.bpushFull v) }
+        else some { s with pc := upd s.pc t (.pushCalled v) }
+      else none
+    | .bpopGotHigh h =>
+      if x = s.low then
+        if h ≤ x then some { s with pc := upd s.pc t .bpopEmpty }
+        else some { s with pc := upd s.pc t .popCalled }
+      else none
+    | .sizeGotHigh h g =>
+      if x = s.low then some { s with pc := upd s.pc t (.sizeGotBoth h x g s.high) } else none
+    | _ => none
+  | .relax t =>
+    match s.pc t with
+    | .bpushFull v => some { s with pc := upd s.pc t (.pushCalled v) }
+    | .bpopEmpty => some { s with pc := upd s.pc t .popCalled }
+    | _ => none
+  | .retBPush t r =>
+    -- the loop ends only when an attempt returned 1
+    match s.pc t with
+    | .pushDone r' =>
+      if r' = 1 ∧ r = 1 ∧ (s.wrap t).isPush = true then
+        some { s with pc := upd s.pc t .idle, wrap := upd s.wrap t .no,
+                      active := s.active.filter (fun u => u != t) }
+      else none
+    | _ => none
+  | .retBPop t x =>
+    -- the loop ends only when an attempt returned non-NULL, and that value is returned
+    match s.pc t with
+    | .popDone x' =>
+      if x = x' ∧ x ≠ 0 ∧ (s.wrap t).isPop = true then
+        some { s with pc := upd s.pc t .idle, wrap := upd s.wrap t .no,
+                      active := s.active.filter (fun u => u != t) }
+      else none
+    | _ => none
+  | .retSize t n =>
+    match s.pc t with
+    | .sizeGotBoth h l _ _ =>
+      -- `(int64_t)(high - low) >= 0 ? high - low : 0` is truncated subtraction
+      if n = h - l then
         some { s with pc := upd s.pc t .idle, active := s.active.filter (fun u => u != t) }
       else none
     | _ => none
@@ -205,15 +366,29 @@ def sys (size : Nat) : Sys St Ev := { init := init size, step := step }
 def bufIndex (cell : String) : Option Nat :=
   if cell.startsWith "buf" then (cell.drop 3).toString.toNat? else none
 
+/-- loads of `high` / `low` are attributed to the function that performs them: the ones of
+    these three functions are the wrappers' own (`wLdHigh` / `wLdLow`), all others belong to a
+    trypush / trypop attempt (`ldHigh` / `ldLow`) -/
+def wrapperFns : List String :=
+  ["lockfree_ring_buffer_push", "lockfree_ring_buffer_pop", "lockfree_ring_buffer_size"]
+
 def ofRaw (r : RawEv) : Option Ev :=
   let t := r.tid
+  let w := wrapperFns.contains r.func
   match r.kind, r.args with
+  | "note", ["call", "bpush", v] => v.toNat?.map (Ev.callBPush t)
+  | "note", ["ret", "bpush", v] => v.toNat?.map (Ev.retBPush t)
+  | "note", ["call", "bpop"] => some (Ev.callBPop t)
+  | "note", ["ret", "bpop", v] => v.toNat?.map (Ev.retBPop t)
+  | "note", ["call", "size"] => some (Ev.callSize t)
+  | "note", ["ret", "size", v] => v.toNat?.map (Ev.retSize t)
+  | "note", ["relax"] => if w then some (Ev.relax t) else none
   | "note", ["call", "push", v] => v.toNat?.map (Ev.callPush t)
   | "note", ["ret", "push", v] => v.toNat?.map (Ev.retPush t)
   | "note", ["call", "pop"] => some (Ev.callPop t)
   | "note", ["ret", "pop", v] => v.toNat?.map (Ev.retPop t)
-  | "ld", ["low", x, _] => x.toNat?.map (Ev.ldLow t)
-  | "ld", ["high", x, _] => x.toNat?.map (Ev.ldHigh t)
+  | "ld", ["low", x, _] => x.toNat?.map (if w then Ev.wLdLow t else Ev.ldLow t)
+  | "ld", ["high", x, _] => x.toNat?.map (if w then Ev.wLdHigh t else Ev.ldHigh t)
   | "r", [c, x] => do let i ← bufIndex c; let x ← x.toNat?; pure (Ev.rdBuf t i x)
   | "w", [c, x] => do let i ← bufIndex c; let x ← x.toNat?; pure (Ev.wrBuf t i x)
   | "cas", [c, f, e, d, ok, _] => do
@@ -223,6 +398,25 @@ def ofRaw (r : RawEv) : Option Ev :=
     else if c = "low" then pure (Ev.casLow t f e d ok) else none
   | _, _ => none
 
+/-- what the API-level monitor sees: a blocking push / pop is a push / pop operation (that
+    happens to never fail) -/
+def monitorView (l : String) : String :=
+  (l.replace " bpush" " push").replace " bpop" " pop"
+
+/-- oracle for `ret size n`: the reported fill level never exceeds the capacity -/
+def sizeMonitor (capacity : Nat) (lines : List String) : Option String :=
+  lines.findSome? (fun l =>
+    match parseLine l with
+    | some r =>
+      match r.kind, r.args with
+      | "note", ["ret", "size", n] =>
+        match n.toNat? with
+        | some n => if n ≤ capacity then none
+                    else some s!"size: reported {n} items, capacity is {capacity}"
+        | none => some s!"size: unreadable result in \"{l}\""
+      | _, _ => none
+    | none => none)
+
 /-- `verifdrv Ring <log>`: the `note init ring <size>` line gives the capacity. -/
 def drive (lines : List String) : IO UInt32 := do
   match initArgs lines with
@@ -231,8 +425,9 @@ def drive (lines : List String) : IO UInt32 := do
     | some size =>
       let body := lines.filter (fun l => !isInit l)
       let v := validate (sys size) ofRaw body
-      let mon := queueMonitor { disc := .fifo, capacity := size, drained := true, failOnlyAlone := true } body
-      report "Ring" v mon
+      let mon := queueMonitor { disc := .fifo, capacity := size, drained := true, failOnlyAlone := true }
+        (body.map monitorView)
+      report "Ring" v (mon <|> sizeMonitor size body)
     | none => IO.println "VALIDATE DIVERGE bad init"; return 1
   | _ => IO.println "VALIDATE DIVERGE missing init"; return 1
 
